@@ -7,9 +7,9 @@
 
    Views are basic Numpy views: a list, possibly shorter than the number of axes, of integers
    and slices (None / Ellipsis / () are the empty list). *)
-From Coq Require Import ZArith List Bool.
+From Coq Require Import ZArith QArith Qabs List Bool.
 Import ListNotations.
-From GV Require Import Common.Wire Common.PyInt gen.Gen_array gen.Gen_viewprog.
+From GV Require Import Common.Wire Common.PyInt gen.Gen_array gen.Gen_viewprog gen.Gen_axiscorr.
 Open Scope Z_scope.
 
 Inductive ventry := VInt (i : Z) | VSlice (s : slice).
@@ -449,6 +449,102 @@ Definition positions_of (shape : list Z) (t : tree) : option (list Z * list Z) :
 Definition enc_mask (r : list Z * (list Z -> bool)) : tree :=
   let '(sh, m) := r in T 1 [zs sh; bools (map m (box sh))].
 
+(* ---------- round 5: a concrete affine world function, its dependent axes computed from the matrix ---------- *)
+(* AffineCoordinates(M): M is the (nd+1) x (nd+1) matrix over Q in glue's (x, y, z) order, last row (0 .. 0 1).
+   The dependent axes are NOT an input here: they are computed from M by the TRANSLATED entry predicate
+   (Gen_axiscorr.axis_corr_entry, on Gen_axiscorr.axis_corr_submatrix) and the TRANSLATED dependent_axes program. *)
+
+Definition mat_get (m : list (list bool)) (i j : nat) : bool := nth j (nth i m []) false.
+Definition mat_rows (m : list (list bool)) : nat := length m.
+Definition mat_cols (m : list (list bool)) : nat := length (hd [] m).
+Definition graph_identity : nat -> nat -> bool := Nat.eqb.
+Definition graph_or_matrix (m : list (list bool)) (g : nat -> nat -> bool) : nat -> nat -> bool :=
+  fun i j => g i j || ((i <? mat_rows m)%nat && (j <? mat_cols m)%nat && mat_get m i j).
+Definition graph_or_transpose (g : nat -> nat -> bool) : nat -> nat -> bool := fun i j => g i j || g j i.
+(* graph[dep].any(axis=0): column j is set when some selected row has it set *)
+Definition dep_step (n : nat) (g : nat -> nat -> bool) (dep : nat -> bool) : nat -> bool :=
+  fun j => existsb (fun i => dep i && g i j) (seq 0 n).
+Definition dep_nonzero (n : nat) (dep : nat -> bool) : list Z := map Z.of_nat (filter dep (seq 0 n)).
+
+Record dstate := DState { ds_mat : list (list bool); ds_n : nat; ds_graph : nat -> nat -> bool; ds_dep : nat -> bool;
+                          ds_ret : option (list Z) }.
+
+Definition exec_loop (n : nat) (g : nat -> nat -> bool) (s : dloop) (dep : nat -> bool) : nat -> bool :=
+  match s with LDepStep => dep_step n g dep end.
+
+(* corr = wcs.axis_correlation_matrix ; legacy = isinstance(wcs, LegacyCoordinates) *)
+Definition exec_dstmt (legacy : bool) (corr : list (list bool)) (axis : nat) (s : dstmt) (st : dstate) : dstate :=
+  match ds_ret st with
+  | Some _ => st
+  | None =>
+    match s with
+    | DLegacyReturnAxis => if legacy then DState (ds_mat st) (ds_n st) (ds_graph st) (ds_dep st) (Some [Z.of_nat axis]) else st
+    | DMatrix rr rc =>
+        let m1 := if rc then map (@rev bool) corr else corr in
+        DState (if rr then rev m1 else m1) (ds_n st) (ds_graph st) (ds_dep st) None
+    | DN => DState (ds_mat st) (Nat.max (mat_rows (ds_mat st)) (mat_cols (ds_mat st))) (ds_graph st) (ds_dep st) None
+    | DGraphIdentity => DState (ds_mat st) (ds_n st) graph_identity (ds_dep st) None
+    | DGraphOrMatrix => DState (ds_mat st) (ds_n st) (graph_or_matrix (ds_mat st) (ds_graph st)) (ds_dep st) None
+    | DGraphOrTranspose => DState (ds_mat st) (ds_n st) (graph_or_transpose (ds_graph st)) (ds_dep st) None
+    | DDepRow => DState (ds_mat st) (ds_n st) (ds_graph st) (ds_graph st axis) None
+    | DLoopN body =>
+        DState (ds_mat st) (ds_n st) (ds_graph st)
+               (Nat.iter (ds_n st) (fun dep => fold_left (fun d s' => exec_loop (ds_n st) (ds_graph st) s' d) body dep) (ds_dep st)) None
+    | DReturnNonzero => DState (ds_mat st) (ds_n st) (ds_graph st) (ds_dep st) (Some (dep_nonzero (ds_n st) (ds_dep st)))
+    end
+  end.
+
+Definition run_dep (prog : list dstmt) (legacy : bool) (corr : list (list bool)) (axis : nat) : option (list Z) :=
+  ds_ret (fold_left (fun st s => exec_dstmt legacy corr axis s st) prog
+                    (DState [] 0 (fun _ _ => false) (fun _ => false) None)).
+
+(* dependent_axes(AffineCoordinates(M), axis) with an arbitrary entry predicate (the translated one below) *)
+Definition affine_dep_with (entry : Q -> bool) (M : list (list Q)) (axis : nat) : list Z :=
+  match run_dep dependent_axes_prog false (map (map entry) (axis_corr_submatrix M)) axis with
+  | Some l => l
+  | None => []
+  end.
+Definition affine_dep (M : list (list Q)) (axis : nat) : list Z := affine_dep_with axis_corr_entry M axis.
+
+(* the world coordinate of numpy axis `axis` at the pixel c (numpy order): row nd-1-axis of M applied to (x, y, z, 1);
+   with both axes of M[:-1, :-1] reversed that is row `axis` applied to c, plus the offset of that row *)
+Fixpoint dotq (r : list Q) (c : list Z) : Q :=
+  match r, c with
+  | x :: r', y :: c' => (x * inject_Z y + dotq r' c')%Q
+  | _, _ => 0%Q
+  end.
+Definition affine_linear (M : list (list Q)) : list (list Q) := rev (map (@rev Q) (map (fun r => removelast r) (removelast M))).
+Definition affine_offsets (M : list (list Q)) : list Q := rev (map (fun r => last r 0%Q) (removelast M)).
+Definition affine_world (M : list (list Q)) (axis : nat) (c : list Z) : Q :=
+  Qred (dotq (nth axis (affine_linear M) []) c + nth axis (affine_offsets M) 0%Q).
+
+(* pixel2world_single_axis (glue/core/coordinate_helpers.py), called by _calculate on the meshgrid of the per-axis pixel coordinates:
+   a pixel axis whose entry in row `world_axis` of wcs.axis_correlation_matrix is not set is replaced by p.flat[0], the
+   coordinate of the FIRST element of the request, and broadcast.  rd k = that entry for numpy axis k. *)
+Fixpoint keep_rowdep (rd : nat -> bool) (k : nat) (c c0 : list Z) : list Z :=
+  match c, c0 with
+  | x :: c', x0 :: c0' => (if rd k then x else x0) :: keep_rowdep rd (S k) c' c0'
+  | _, _ => c
+  end.
+Definition world_calculate2 (A : Type) (W : list Z -> A) (shape : list Z) (dep : list Z) (rd : nat -> bool) (view : list ventry)
+  : list Z * (list Z -> A) :=
+  let sels := sel_of shape view in
+  let first := zero_nondep dep 0 (to_under sels (map (fun _ => 0) (sel_shape sels))) in
+  (sel_shape sels, fun j => W (keep_rowdep rd 0 (zero_nondep dep 0 (to_under sels j)) first)).
+Definition affine_rowdep_with (entry : Q -> bool) (M : list (list Q)) (axis : nat) : nat -> bool :=
+  mat_get (rev (map (@rev bool) (map (map entry) (axis_corr_submatrix M)))) axis.
+Definition affine_rowdep (M : list (list Q)) (axis : nat) : nat -> bool := affine_rowdep_with axis_corr_entry M axis.
+
+(* what np.isclose(x, 0) with numpy's default tolerances calls "zero": |x| <= 1e-8 (a dep computed with it drops genuinely small scales) *)
+Definition isclose_zero_entry (x : Q) : bool := negb (Qle_bool (Qabs x) (1 # 100000000)).
+
+Definition dec_q (t : tree) : Q :=
+  match t with
+  | T _ [T n _; T d _] => Qmake n (Z.to_pos d)
+  | _ => 0%Q
+  end.
+Definition enc_q (q : Q) : tree := T 0 [leaf (Qnum q); leaf (Zpos (Qden q))].
+
 Definition run_case (t : tree) : tree :=
   match t with
   (* SliceSubsetState.to_mask(data, view) *)
@@ -519,5 +615,14 @@ Definition run_case (t : tree) : tree :=
       | None => err IndexError
       | Some (rsh, pos) => T 1 [zs rsh; zs (parsed_values_view (dec_aexpr ae) (to_zs xs) pos)]
       end
+  (* world attribute under AffineCoordinates(M): the values of the view, and the dependent axes computed from M *)
+  | T 9 [sh; T _ rows; T axis _; vw] =>
+      let shape := to_zs sh in
+      if negb (view_ok shape (dec_view vw)) then err IndexError else
+      let M := map (fun r => map dec_q (kids r)) rows in
+      let a := Z.to_nat axis in
+      let dep := affine_dep M a in
+      let '(osh, f) := world_calculate2 Q (affine_world M a) shape dep (affine_rowdep M a) (dec_view vw) in
+      T 1 [zs osh; T 0 (map (fun j => enc_q (f j)) (box osh)); zs dep]
   | _ => err (-2)
   end.
